@@ -56,12 +56,24 @@ class FlowBook(object):
         self.probes = []         # (kind, t, y, value)
         self.integrators = []
 
-    def start(self, y0, t0, key=None):
+    def start(self, y0, t0, key=None, fval=None):
         y0 = [v for v in np.asarray(y0, dtype=object).ravel()]
         n = len(y0)
+        if self.keyed == "semantic" and fval is not None:
+            # flow = uninterpreted function of (t ; f(y0), y0, t0): congruence (same right-hand side at the
+            # initial point, same initial condition => same trajectory) is then decided by the solver
+            fv = [v for v in np.asarray(fval, dtype=object).ravel()][:n]
+            args = [_real(to_z3(v)) for v in fv + y0 + [t0]]
+            k = len(self.flows)
+            base = [z3.Function("XF%d_%d" % (n, i), *([sym.R] * (len(args) + 2))) for i in range(n)]
+            fns = [(lambda tt, b=b: b(tt, *args)) for b in base]
+            self.flows.append({"n": n, "t0": t0, "y0": y0, "fns": fns, "semantic": True})
+            for i in range(n):
+                self.c._assume_z(fns[i](_real(to_z3(t0))) == _real(to_z3(y0[i])), auto=True)
+            return k
         if key is not None and self.keyed:
             import hashlib
-            hk = hashlib.sha1((key + "|" + "|".join(str(to_z3(v)) for v in y0) + "|" + str(to_z3(t0))).encode()).hexdigest()[:10]
+            hk = hashlib.sha1((key + "|" + "|".join(to_z3(v).sexpr() for v in y0) + "|" + to_z3(t0).sexpr()).encode()).hexdigest()[:10]
             for k, fl in enumerate(self.flows):
                 if fl.get("key") == hk:
                     return k
@@ -103,7 +115,7 @@ class FlowBook(object):
 
 def _probe_key(val):
     try:
-        return "|".join(str(to_z3(v)) if isinstance(v, Sym) else repr(v) for v in np.asarray(val, dtype=object).ravel())
+        return "|".join(to_z3(v).sexpr() if isinstance(v, Sym) else repr(v) for v in np.asarray(val, dtype=object).ravel())
     except Exception:
         return None
 
@@ -146,7 +158,7 @@ class StubOde(object):
         # one probe of the callables at the initial point: which function, which order
         val = self.f(t, self._cur.copy(), *self.f_params)
         StubOde.book.probes.append(("f", self, t, self._cur.copy(), val))
-        self._flow = StubOde.book.start(y, t, key=_probe_key(val))
+        self._flow = StubOde.book.start(y, t, key=_probe_key(val) if StubOde.book.keyed is True else None, fval=val)
         if self.jac is not None and self._name not in ("dopri5", "dop853"):
             val = self.jac(t, self._cur.copy(), *self.jac_params)
             StubOde.book.probes.append(("jac", self, t, self._cur.copy(), val))
@@ -192,7 +204,7 @@ class StubOdeint(object):
         y0v = np.array(np.asarray(y0, dtype=object).ravel(), dtype=object)
         val = func(y0v.copy(), t[0], *args)
         self.book.probes.append(("f_odeint", self, t[0], y0v.copy(), val))
-        k = self.book.start(y0v, t[0], key=_probe_key(val))
+        k = self.book.start(y0v, t[0], key=_probe_key(val) if self.book.keyed is True else None, fval=val)
         if Dfun is not None:
             jv = Dfun(y0v.copy(), t[0], *args)
             self.book.probes.append(("jac_odeint", self, t[0], y0v.copy(), jv))
@@ -389,10 +401,11 @@ class StatsStub(object):
     Argument normalisation follows scipy's signatures (shapes positional or by keyword, loc=0, scale=1).
     Poisson log-pmf additionally has its closed form (validated against scipy on concrete points)."""
 
-    def __init__(self, c, closed_forms=True):
+    def __init__(self, c, closed_forms=True, support=False):
         self.c = c
         self.calls = []
         self.closed_forms = closed_forms
+        self.support = support     # True: densities carry their support (uniform in closed form, gamma > 0 iff x > 0, ...)
 
     def __getattr__(self, dist):
         if dist.startswith("_") or dist not in SHAPES:
@@ -406,8 +419,24 @@ class StatsStub(object):
         if self.closed_forms and dist == "poisson" and fn == "logpmf" and _is0(params["loc"]):
             mu = params["mu"]
             return x * _log(mu) - mu - _lgamma(x + 1)
+        if self.support and dist == "uniform" and fn == "pdf":
+            lo, sc = params["loc"], params["scale"]
+            xz, loz, scz = _real(to_z3(x)), _real(to_z3(lo)), _real(to_z3(sc))
+            return Sym(z3.If(z3.And(xz >= loz, xz <= loz + scz), 1 / scz, z3.RealVal(0)))
         f = self.c.uf("st_%s_%s" % (dist, fn), 1 + len(vals))
-        return f(x, *vals)
+        t = f(x, *vals)
+        if self.support and fn in ("pdf", "pmf") and isinstance(t, Sym):
+            xz = _real(to_z3(x)) - _real(to_z3(params["loc"]))
+            if dist in ("gamma", "expon", "chi2"):
+                self.c._assume_z(z3.And(z3.Implies(xz > 0, t.z > 0), z3.Implies(xz < 0, t.z == 0), t.z >= 0), auto=True)
+            elif dist == "norm":
+                self.c._assume_z(t.z > 0, auto=True)
+            elif dist == "beta":
+                self.c._assume_z(z3.And(z3.Implies(z3.And(xz > 0, xz < _real(to_z3(params["scale"]))), t.z > 0),
+                                        z3.Implies(z3.Or(xz < 0, xz > _real(to_z3(params["scale"]))), t.z == 0), t.z >= 0), auto=True)
+            else:
+                self.c._assume_z(t.z >= 0, auto=True)
+        return t
 
 
 def _is0(v):
